@@ -2,8 +2,10 @@
 Decided on spec/ConfigMachine.tla: C13_Isolated (an operation on one configuration never
 changes the other one, built before or after), plus a schema snapshot taken by the harness
 around every replayed step."""
-from . import cfgmachine
+from . import cfgfamily, cfgmachine
 
 
 def run(tier, seed):
-    return cfgmachine.run_machine("C13", [], ["C13_Isolated"], tier, seed)
+    out = cfgmachine.run_machine("C13", [], ["C13_Isolated"], tier, seed)
+    # and on the generated schema family (every schema shape)
+    return cfgmachine.merge(out, cfgfamily.run_family("C13", [], ["C13_Isolated"], tier, seed))
